@@ -1,5 +1,5 @@
 CFG = dict(
-    theorems=["C15.nfa_accepts_iff_lang", "C15.compileNode_correct", "C15.emitted_match_valid",
+    theorems=["C15.nfa_accepts_iff_lang", "C15.compileNode_correct", "C15.pattern_tree_lang", "C15.emitted_match_valid",
               "C15.skip_past_last_row_disjoint", "C15.match_starts_increasing", "C15.match_number_sequential",
               "C15.flush_emits_accepting", "C15.cep_partition_isolation", "C15.valid_match_explored",
               "C15.cep_complete_longest", "C15.facts_cep"],
